@@ -232,7 +232,7 @@ func newExec(t *testing.T) func([]string) string {
 			c3, e3 := cert.Recombine(cert.Version(f.Version), hs, c.PublicKey(), c.Curve())
 			return fmt.Sprintf("ok %s %s %s %s %s", hlib.Hex(std), hlib.Hex(hs), rt(c, c1, e1), rt(c, c2, e2), rt(c, c3, e3))
 		case "tamper":
-			if len(a) != 9 {
+			if len(a) != 10 {
 				return "bad-op"
 			}
 			ver, caver := hlib.Atoi(a[1]), hlib.Atoi(a[5])
@@ -275,12 +275,41 @@ func newExec(t *testing.T) func([]string) string {
 			if f0.Desc() == f1.Desc() {
 				same = "same"
 			}
+			if a[9] == "1" {
+				fp0, _ := c0.Fingerprint()
+				pool.BlocklistFingerprint(fp0)
+			}
 			_, verr := pool.VerifyCertificate(cl.TimeOf(a[7]), c1)
 			v := "ok"
 			if verr != nil {
 				v = verifyKind(verr)
 			}
 			return fmt.Sprintf("%s %s %s", v, same, sigrel)
+		case "copy":
+			c, err := decodeStd(hlib.Atoi(a[1]), bytesArg(a[2]))
+			if err != nil {
+				return "undecodable " + decKind(err)
+			}
+			cp := c.Copy()
+			if cl.Desc(cp) != cl.Desc(c) {
+				return "differs:fields"
+			}
+			f1, e1 := c.Fingerprint()
+			f2, e2 := cp.Fingerprint()
+			if f1 != f2 || (e1 == nil) != (e2 == nil) {
+				return "differs:fingerprint"
+			}
+			m1, _ := c.Marshal()
+			m2, _ := cp.Marshal()
+			h1, _ := c.MarshalForHandshakes()
+			h2, _ := cp.MarshalForHandshakes()
+			if string(m1) != string(m2) || string(h1) != string(h2) {
+				return "differs:encoding"
+			}
+			if cp.Version() != c.Version() || cp.Curve() != c.Curve() || cp.IsCA() != c.IsCA() {
+				return "differs:fields"
+			}
+			return "same"
 		case "norm":
 			sig := bytesArg(a[1])
 			n := "err"
@@ -323,7 +352,7 @@ func codecFields(r *hlib.Rand) (cl.Fields, cert.Certificate, string) {
 	if r.Chance(1, 8) {
 		f.NotAfter = f.NotAfter.Add(time.Duration(1 + r.Intn(999999999)))
 	}
-	nameLen := hlib.Pick(r, 0, 1, 1, 4, 4, 8, 8, 20, 127, 128, 253, 254, 300)
+	nameLen := hlib.Pick(r, 0, 1, 1, 4, 4, 8, 8, 20, 127, 128, 252, 253, 254, 255, 300, 1000)
 	nm := make([]byte, nameLen)
 	for i := range nm {
 		nm[i] = byte('a' + r.Intn(26))
@@ -340,6 +369,9 @@ func codecFields(r *hlib.Rand) (cl.Fields, cert.Certificate, string) {
 		f.Groups = append(f.Groups, g+fmt.Sprint(r.Intn(5)))
 		if r.Chance(1, 10) {
 			f.Groups[len(f.Groups)-1] = g
+		}
+		if r.Chance(1, 8) { // every string at and around the decoders' limits
+			f.Groups[len(f.Groups)-1] = strings.Repeat("G", hlib.Pick(r, 127, 128, 252, 253, 254, 255, 256, 300, 1000))
 		}
 	}
 	v6ok := version == 2 || r.Chance(1, 20)
@@ -469,6 +501,12 @@ func genTamper(r *hlib.Rand, n int, emit func(string, ...any)) {
 				Networks: []netip.Prefix{cl.Inside(r, netip.MustParsePrefix("10.0.0.0/8"), 16)}, PublicKey: cl.LeafPub(r, curve)}
 			if r.Bool() {
 				f.Unsafe = []netip.Prefix{netip.MustParsePrefix("10.200.0.0/16")}
+				if r.Bool() {
+					f.Unsafe = append(f.Unsafe, netip.MustParsePrefix("10.201.0.0/24"), netip.MustParsePrefix("10.202.3.0/24"))
+				}
+			}
+			if r.Chance(1, 3) {
+				f.Networks = append(f.Networks, cl.Inside(r, netip.MustParsePrefix("10.0.0.0/8"), 12))
 			}
 			raw := cl.Craft(f, key, nil)
 			c0, err := cl.Decode(ver, raw)
@@ -477,6 +515,17 @@ func genTamper(r *hlib.Rand, n int, emit func(string, ...any)) {
 			}
 			hs, _ := c0.MarshalForHandshakes()
 			now := cl.NsOf(T0+int64(r.Intn(1000)), 0)
+			emit("copy %d %s", ver, hlib.Hex(raw))
+			i++
+			// the original's other signature form while the original is blocklisted, and the original itself
+			if tw, err := p256.Swap(c0.Signature()); err == nil && curve == cert.Curve_P256 {
+				twraw := cl.Craft(cl.FieldsOf(c0), nil, tw)
+				if tc, err := decodeStd(ver, twraw); err == nil {
+					emit("tamper %d std %s %s %d %s %s %s 1", ver, hlib.Hex(raw), hlib.Hex(twraw), caver, hlib.Hex(caraw), now, hlib.B(tc.CheckSignature(ca.PublicKey())))
+					emit("copy %d %s", ver, hlib.Hex(twraw))
+					i += 2
+				}
+			}
 			for k := 0; k < 8 && i < n; k++ {
 				i++
 				form, base := "std", raw
@@ -531,7 +580,8 @@ func genTamper(r *hlib.Rand, n int, emit func(string, ...any)) {
 				if err == nil {
 					sig = hlib.B(c1.CheckSignature(ca.PublicKey()))
 				}
-				emit("tamper %d %s %s %s %d %s %s %s", ver, form, hlib.Hex(raw), hlib.Hex(alt), caver, hlib.Hex(caraw), now, sig)
+				block := hlib.B(r.Chance(1, 3))
+				emit("tamper %d %s %s %s %d %s %s %s %s", ver, form, hlib.Hex(raw), hlib.Hex(alt), caver, hlib.Hex(caraw), now, sig, block)
 			}
 		}
 	}
@@ -609,6 +659,7 @@ func gen(r *hlib.Rand, n int, tier, profile string, emit func(string, ...any)) {
 		pub := hlib.Hex(c.PublicKey())
 		emit("dec %d std 0 - %s", ver, hlib.Hex(std))
 		emit("dec %d hs %d %s %s", ver, f.Curve, pub, hlib.Hex(hs))
+		emit("copy %d %s", ver, hlib.Hex(std))
 		for k, m := 0, hlib.Pick(r, 1, 2, 4); k < m; k++ {
 			switch r.Intn(8) {
 			case 0:
